@@ -681,7 +681,7 @@ def signature(case, f):
         sig["zero_length"] = True
     if has_node(prog, SWITCHY) and any(o[0] in ("upd", "bwd") and o[-2] is True for o in case["ops"]):
         sig["switch_index_change"] = True
-    if case.get("py") and prog[0] == "mask":
+    if case.get("py") and case.get("py_mask") and prog[0] == "mask":
         sig["concrete_mask_flag"] = True
     if f["prop"] == "C06":
         sig = {"prop": "C06"}
